@@ -5,7 +5,8 @@ patch="$1"; shift
 cd /repo || exit 2
 if [ -n "$(git status --porcelain)" ]; then echo "/repo has uncommitted changes - refusing to run"; exit 2; fi
 git apply "$patch" || { echo "patch does not apply"; exit 2; }
-trap 'git -C /repo checkout -- . ; rm -rf /verif/replays_mut' EXIT
+rm -rf /verif/.work/ev_backup; cp -r /verif/evidence /verif/.work/ev_backup
+trap 'git -C /repo checkout -- . ; rm -rf /verif/evidence; mv /verif/.work/ev_backup /verif/evidence; rm -rf /verif/replays' EXIT
 cd /verif
 for p in "$@"; do
   for seed in ${SEEDS:-0}; do
